@@ -60,7 +60,7 @@ def sig1(draw, twod=False, nmax=None):
     else:
         x = draw(gen.complex_array(shape, kind="sparse"))
     y = draw(gen.complex_array(shape, kind="dense"))
-    return {"x": x, "y": y, "delta": draw(st.one_of(gen.logfloat(1e-3, 1e3), st.sampled_from([1, 2, 3, 5]))), "where": draw(st.sampled_from(["module", "package"])),
+    return {"x": x, "y": y, "delta": draw(st.one_of(gen.logfloat(1e-3, 1e3), st.sampled_from([1, 2, 3, 5]))), "delta_as": draw(st.sampled_from(["python", "python", "python", "float32", "int32", "float64_0d"])), "where": draw(st.sampled_from(["module", "package"])),
             "a": draw(gen.dyadic(-2, 2, 16)), "b": draw(gen.dyadic(-2, 2, 16)), "k": draw(st.integers(-N, N)), "kind": kind,
             "amp_exp": draw(st.sampled_from([-60, -50, -44, -30, -20, -14, -7, 7, 20, 40, 60]))}
 
@@ -68,7 +68,7 @@ def sig1(draw, twod=False, nmax=None):
 def classes_for(case, twod):
     x = case["x"]
     N = x.shape[-1]
-    return ["delta_int" if isinstance(case["delta"], int) else "delta_float", "odd" if N % 2 else "even", "batch%d" % (x.ndim - (2 if twod else 1)), case["where"], case["kind"]]
+    return ["delta_int" if isinstance(case["delta"], int) else "delta_float", "spacing_as_" + case.get("delta_as", "python"), "odd" if N % 2 else "even", "batch%d" % (x.ndim - (2 if twod else 1)), case["where"], case["kind"]]
 
 
 
@@ -89,8 +89,23 @@ def homogeneity(ctx, case, fwd, inv, x, y, X, yi, delta, df, T, what):
     ctx.close(inv(Xs, df), xs.astype(np.complex128), T, "i%s(%s(x)) == x at amplitude 2^%d" % (what, what, e), scale=norm(xs))
 
 
+def spacing(case):
+    """The same spacing as a NumPy scalar of another type (a pixel scale read from a float32 array or an integer header
+    card): float(numpy.float32(d)) is one exact real number, the transforms must treat it as such."""
+    d, how = case["delta"], case.get("delta_as", "python")
+    if how == "float32":
+        d32 = np.float32(d)
+        return d32, float(d32)
+    if how == "int32" and isinstance(d, int):
+        return np.int32(d), float(d)
+    if how == "float64_0d":
+        return np.array(float(d)), float(d)
+    return d, d
+
+
 def body_1d(ctx, case):
     x, y, delta, where = case["x"], case["y"], case["delta"], case["where"]
+    delta_given, delta = spacing(case)
     ft, ift = entry("ft", where), entry("ift", where)
     N = x.shape[-1]
     df = 1.0 / (N * delta)
@@ -124,6 +139,12 @@ def body_1d(ctx, case):
         peri = np.stack([ift(Y.reshape(-1, N)[i], df) for i in range(flat.shape[0])]).reshape(yi.shape)
         ctx.close(yi, peri, max(1e-13, T * 1e-3), "ift batch == per item", scale=norm(Y) * df * math.sqrt(N))
     homogeneity(ctx, case, ft, ift, x, y, X, yi, delta, df, T, "ft")
+    if case.get("delta_as", "python") != "python" and x.dtype.kind in "fciu" and tol_for(case) == TOL:
+        # the spacing handed over as a NumPy scalar of another type is the same number
+        ctx.close(ft(x, delta_given), X, 1e-13, "ft(x, %s spacing) == ft(x, the same spacing as a Python float)" % type(delta_given).__name__, scale=nx * delta * math.sqrt(N), name="typed spacing ft")
+        dfg = type(delta_given)(df) if not isinstance(delta_given, np.ndarray) else np.array(df)
+        if not isinstance(dfg, np.integer):
+            ctx.close(ift(Y, dfg), ift(Y, float(dfg)), 1e-13, "ift(X, %s spacing) == ift(X, the same spacing as a Python float)" % type(dfg).__name__, scale=norm(Y) * float(dfg) * math.sqrt(N), name="typed spacing ift")
     # shift theorem (cyclic shift by k samples)
     k = case["k"]
     c = N // 2
@@ -133,6 +154,7 @@ def body_1d(ctx, case):
 
 def body_2d(ctx, case):
     x, y, delta, where = case["x"], case["y"], case["delta"], case["where"]
+    delta_given, delta = spacing(case)
     ft2, ift2 = entry("ft2", where), entry("ift2", where)
     N = x.shape[-1]
     df = 1.0 / (N * delta)
@@ -154,6 +176,17 @@ def body_2d(ctx, case):
     a, b = case["a"], case["b"]
     ctx.close(ft2(a * x + b * y, delta), a * X + b * ft2(y, delta), T, "ft2 linearity", scale=(abs(a) * nx + abs(b) * norm(y) + 1e-300) * delta ** 2 * N)
     homogeneity(ctx, case, ft2, ift2, x, y, X, yi, delta, df, T, "ft2")
+    if case.get("delta_as", "python") != "python" and x.dtype.kind in "fciu" and tol_for(case) == TOL:
+        # the spacing handed over as a NumPy scalar of another type is the same number
+        ctx.close(ft2(x, delta_given), X, 1e-13, "ft2(x, %s spacing) == ft2(x, the same spacing as a Python float)" % type(delta_given).__name__, scale=nx * delta ** 2 * N, name="typed spacing ft2")
+        dfg = type(delta_given)(df) if not isinstance(delta_given, np.ndarray) else np.array(df)
+        if not isinstance(dfg, np.integer):
+            ctx.close(ift2(Y, dfg), ift2(Y, float(dfg)), 1e-13, "ift2(X, %s spacing) == ift2(X, the same spacing as a Python float)" % type(dfg).__name__, scale=norm(Y) * float(dfg) ** 2 * N, name="typed spacing ift2")
+    if x.ndim == 2:
+        # a second function of the same name and signature is exported by the sub-package: aotools.turbulence.ift2
+        import aotools.turbulence as _tb
+        ctx.close(_tb.ift2(Y, df), dft.ift2(Y, df), T, "aotools.turbulence.ift2 vs centred inverse 2-D DFT (N=%d)" % N, scale=norm(Y) * df ** 2 * N, name="turbulence.ift2 vs oracle")
+        ctx.close(_tb.ift2(X, df), x.astype(np.complex128), T, "aotools.turbulence.ift2(ft2(x)) == x (N=%d)" % N, scale=nx, name="turbulence.ift2 round trip")
     if x.ndim > 2:
         flat = x.reshape((-1, N, N))
         per = np.stack([ft2(flat[i], delta) for i in range(flat.shape[0])]).reshape(X.shape)
